@@ -6,8 +6,10 @@ import (
 	"encoding/json"
 	"fmt"
 	"strings"
+	"sync"
 	"testing"
 	"time"
+	"unicode/utf8"
 
 	"github.com/google/mtail/internal/metrics"
 	"github.com/google/mtail/internal/metrics/datum"
@@ -157,13 +159,18 @@ func c08RunRaw(raw json.RawMessage) *vstat.Failure {
 	return runC08(c)
 }
 
-var c08Atoms = []string{"-", "\\", "\\-", "-\\", "", "a", "\xff", " ", "b", "\\\\", "--"}
+var c08Atoms = []string{"-", "\\", "\\-", "-\\", "", "a", "\xff", " ", "b", "\\\\", "--",
+	"\xfe", "\xe9", "\xe8", "\xef\xbf\xbd", "\xc3", "\xc3\xa9", "\x00", "A", "\xe4\xb8", "\xe4\xb8\xad"}
 
 func TestC08(t *testing.T) {
 	st := vstat.New("C08", "pairs of label tuples (arity 1-4) over an adversarial alphabet {'-', '\\', '\\-', '-\\', '', 'a', 0xff, ' ', ...}, drawn independently and by structure-aware mutation of one tuple (move a character across an element boundary, swap '\\-' and '-', split/merge elements); plus exhaustive small scope; non-trivial = the tuples differ and both contain a separator or escape character; distinct by the pair")
 	st.Assumptions = []string{"metric API used as the VM uses it: GetDatum, FindLabelValueOrNil, ExpireDatum, RemoveDatum, EmitLabelSets"}
 	st.Run(t, c08RunRaw, func() {
 		c08Exhaustive(t, st)
+		if t.Failed() {
+			return
+		}
+		c08Concurrent(t, st)
 		if t.Failed() {
 			return
 		}
@@ -195,7 +202,7 @@ func TestC08(t *testing.T) {
 			default:
 				copy(t2, t1)
 				// structure-aware mutation
-				mut := rapid.IntRange(0, 4).Draw(rt, "mut")
+				mut := rapid.IntRange(0, 6).Draw(rt, "mut")
 				i := rapid.IntRange(0, ar-1).Draw(rt, "i")
 				switch mut {
 				case 0: // move the joint between element i and i+1
@@ -226,11 +233,29 @@ func TestC08(t *testing.T) {
 					}
 				case 4:
 					t2[i] = t2[i] + rapid.SampledFrom(c08Atoms).Draw(rt, "app")
+				case 5: // replace one byte by another byte (e.g. one invalid UTF-8 byte by another, or by U+FFFD)
+					if len(t2[i]) > 0 {
+						k := rapid.IntRange(0, len(t2[i])-1).Draw(rt, "k")
+						rep := rapid.SampledFrom([]string{"\xff", "\xfe", "\xe9", "\xe8", "\xef\xbf\xbd", "\x00", "a", "A", "-", "\\"}).Draw(rt, "rep")
+						t2[i] = t2[i][:k] + rep + t2[i][k+1:]
+					}
+				case 6: // change case / normalisation-sensitive edit
+					if strings.ToUpper(t2[i]) != t2[i] {
+						t2[i] = strings.ToUpper(t2[i])
+					} else {
+						t2[i] = t2[i] + " "
+					}
 				}
 			}
 			c = c08Case{T1: vstat.Qs(t1), T2: vstat.Qs(t2)}
 			st.Eval()
-			special := func(t []string) bool { return strings.ContainsAny(strings.Join(t, ""), "-\\") }
+			special := func(t []string) bool {
+				j := strings.Join(t, "")
+				return strings.ContainsAny(j, "-\\") || !utf8.ValidString(j)
+			}
+			if !utf8.ValidString(strings.Join(t1, "")) && !utf8.ValidString(strings.Join(t2, "")) && !tupleEq(t1, t2) {
+				st.Class("both-non-utf8")
+			}
 			if !tupleEq(t1, t2) && special(t1) && special(t2) {
 				b, _ := json.Marshal(c)
 				st.NonTrivial(string(b), c)
@@ -326,4 +351,65 @@ func c08Exhaustive(t *testing.T, st *vstat.Stats) {
 	}
 	st.Extra("exhaustive_scope", "every tuple of arity 1 and 2 over strings of length <= 3 over {a, -, \\} (thorough: also arity 3 with length <= 2 and arity 2 with length <= 4): number of distinct data = number of tuples, each reads back its own value")
 	st.Exhaustive = true
+}
+
+// c08Concurrent: equal tuples address the same datum also when several
+// goroutines touch a new tuple at the same moment (VM of the old and of the new
+// version of a program around a reload, exporters): after the round the metric
+// holds exactly one label value and every caller got that datum.
+func c08Concurrent(t *testing.T, st *vstat.Stats) {
+	rounds := vstat.Scale(3000, 40000)
+	const workers = 8
+	m := metrics.NewMetric("m", "p", metrics.Counter, metrics.Int, "k")
+	for r := 0; r < rounds; r++ {
+		tp := fmt.Sprintf("v%d", r)
+		var start sync.WaitGroup
+		var done sync.WaitGroup
+		start.Add(1)
+		got := make([]datum.Datum, workers)
+		for w := 0; w < workers; w++ {
+			done.Add(1)
+			go func(w int) {
+				defer done.Done()
+				start.Wait()
+				d, err := m.GetDatum(tp)
+				if err == nil {
+					datum.IncIntBy(d, 1, c08ts)
+					got[w] = d
+				}
+			}(w)
+		}
+		start.Done()
+		done.Wait()
+		st.Eval()
+		c := map[string]any{"concurrent_first_touch": tp, "workers": workers, "round": r}
+		lv := m.FindLabelValueOrNil([]string{tp})
+		n := 0
+		for _, l := range m.LabelValues {
+			if len(l.Labels) == 1 && l.Labels[0] == tp {
+				n++
+			}
+		}
+		var f *vstat.Failure
+		switch {
+		case lv == nil || n != 1:
+			f = vstat.Failf("concurrent-create-duplicates", "tuple %q: %d label values after %d concurrent GetDatum calls", tp, n, workers)
+		case datum.GetInt(lv.Value) != workers:
+			f = vstat.Failf("concurrent-create-duplicates", "tuple %q: counter %d after %d increments through GetDatum", tp, datum.GetInt(lv.Value), workers)
+		default:
+			for _, d := range got {
+				if d != lv.Value {
+					f = vstat.Failf("concurrent-create-duplicates", "tuple %q: a caller got a datum that is not the stored one", tp)
+				}
+			}
+		}
+		if f != nil {
+			st.Violate(t, f, c, "concurrent")
+			return
+		}
+		if r%500 == 0 {
+			_ = m.RemoveDatum(tp)
+		}
+	}
+	st.ClassN("concurrent-first-touch-rounds", rounds)
 }
